@@ -512,6 +512,45 @@ fn main() {
         args.iter().position(|a| a == k).and_then(|i| args.get(i + 1)).and_then(|v| v.parse().ok()).unwrap_or(d)
     };
     let mode = args.get(1).map(|s| s.as_str()).unwrap_or("");
+    if mode == "asyncstd-check" {
+        // the sqlite pool on the second runtime flavour: a connection whose closure panicked is
+        // discarded and replaced, and get() keeps serving (under async-std a panic inside a
+        // blocking closure is handed to whoever awaits it, so this must not reach get())
+        std::panic::set_hook(Box::new(|_| {}));
+        let run = || -> Result<String, String> {
+            use std::panic::{catch_unwind, AssertUnwindSafe};
+            let mut cfg = deadpool_sqlite::Config::new(":memory:");
+            cfg.pool = Some(deadpool_sqlite::PoolConfig::new(1));
+            let pool = cfg.create_pool(deadpool_sqlite::Runtime::AsyncStd1).map_err(|e| format!("create_pool:{e}"))?;
+            let c = async_std::task::block_on(pool.get()).map_err(|e| format!("first get:{e}"))?;
+            let _ = async_std::task::block_on(c.interact(|conn| conn.execute_batch("PRAGMA user_version = 7")))
+                .map_err(|e| format!("mark:{e}"))?;
+            // the closure panics: whatever async-std does with the panic, the wrapper is poisoned
+            let _ = catch_unwind(AssertUnwindSafe(|| {
+                let _ = async_std::task::block_on(c.interact(|_| std::panic::panic_any("scripted panic")));
+            }));
+            drop(c);
+            let again = catch_unwind(AssertUnwindSafe(|| async_std::task::block_on(pool.get())));
+            let c2 = match again {
+                Err(_) => return Ok("get=panicked ok=0".into()),
+                Ok(Err(e)) => return Ok(format!("get=err:{e} ok=0")),
+                Ok(Ok(c2)) => c2,
+            };
+            let v = catch_unwind(AssertUnwindSafe(|| {
+                async_std::task::block_on(c2.interact(|conn| conn.query_row("PRAGMA user_version", [], |r| r.get::<_, i64>(0))))
+            }));
+            match v {
+                Ok(Ok(Ok(0))) => Ok("get=ok fresh=1 ok=1".into()),
+                Ok(Ok(Ok(n))) => Ok(format!("get=ok fresh=0 user_version={n} ok=0")),
+                _ => Ok("get=ok usable=0 ok=0".into()),
+            }
+        };
+        match run() {
+            Ok(l) => println!("sqlite-asyncstd {l}"),
+            Err(e) => println!("sqlite-asyncstd error {e} ok=0"),
+        }
+        return;
+    }
     if mode != "diff" {
         eprintln!("usage: h-syncpools diff --seed S --cases N");
         std::process::exit(2);
